@@ -226,6 +226,10 @@ func intOf(v *rm.Value) (*big.Int, bool) {
 
 func processLST(v *rm.Value, ctx *Table, cat Catalog) (*Table, *TableInfo, error) {
 	info := &TableInfo{}
+	// every symbol ID inside the table struct must itself be defined (by the context in force)
+	if _, err := resolveValue(v, ctx); err != nil {
+		return nil, nil, err
+	}
 	var importsV, symbolsV *rm.Value
 	for _, k := range v.Kids {
 		if k.Field == nil {
